@@ -65,6 +65,7 @@ from tensordict.utils import (
     _KEY_ERROR,
     _lock_warn,
     _make_dtype_promotion,
+    _infer_size_impl,
     _maybe_correct_neg_dim,
     _parse_to,
     _pass_through,
@@ -7668,6 +7669,11 @@ class TensorDictBase(MutableMapping):
             >>> assert (td == td_unflat).all()
         """
         dim = _maybe_correct_neg_dim(dim, self.batch_size)
+        if any(size < 0 for size in unflattened_size):
+            # -1 is inferred from the size of the unflattened dim, as in torch.unflatten
+            unflattened_size = _infer_size_impl(
+                list(unflattened_size), self.batch_size[dim]
+            )
 
         def unflatten(tensor):
             return torch.unflatten(
